@@ -36,6 +36,10 @@ func (r *runner) fetchIDs(ids []model.ID) ([][]byte, bool) {
 			r.violate("hang", "fetch did not return\n%s", r.s.DumpTasks())
 			return nil, false
 		}
+		if err != nil && r.readFaultWindow() {
+			r.s.Probe("fetch_failed_in_read_fault_window")
+			return nil, false
+		}
 		if err != nil {
 			r.violate("api_error", "fetch of %d ids at a quiescent point returned error: %v", len(hits), err)
 			return nil, false
@@ -248,6 +252,10 @@ func (r *runner) compareSearch(label string, s *Search, corpus *model.Corpus) bo
 		return false
 	}
 	if err != nil {
+		if r.readFaultWindow() {
+			r.s.Probe("search_failed_in_read_fault_window")
+			return true
+		}
 		r.violate("api_error", "%s: search %q returned error: %v", label, s.Q.SeqQL(), err)
 		return false
 	}
